@@ -339,8 +339,12 @@ func execCall(w *World, c Call) (res string, uuid string) {
 		return fmt.Sprintf("%s:%d", cls(err), n), ""
 	case "settings":
 		w.Cfg.Cache = c.V%2 == 1
-		w.Cfg.Async = []int{0, 1, 2}[c.V/2]
-		return cls(db.Create(&Rec{}, w.Cfg.Schema(&Rec{}))), ""
+		w.Cfg.Async = []int{0, 1, 2, 0}[c.V/2]
+		sc := w.Cfg.Schema(&Rec{})
+		if c.V/2 == 3 {
+			sc.AsyncWrites = &sod.Async{Enable: false, Threshold: 2, Timeout: 2 * step}
+		}
+		return cls(db.Create(&Rec{}, sc)), ""
 	case "orbad", "andbad":
 		// a refinement that fails: unknown operator, unknown field, mistyped value
 		bad := [][3]interface{}{{"A", "<>", int(1)}, {"Nope", "=", int(1)}, {"A", "=", "x"}}[c.V%3]
